@@ -5,7 +5,6 @@ set -e
 . /verif/bin/env.sh
 cd /verif/lab
 mkdir -p /verif/.build
-cp /repo/go.sum /verif/lab/go.sum 2>/dev/null || true
 exec 9>/verif/.build/.lock
 flock 9
 go build -tags verif -o /verif/.build/lab ./cmd/lab 2> >(grep -v 'sqlite3-binding\|standin\|pNew\|\^\|go-sqlite3' >&2)
